@@ -337,6 +337,39 @@ def run(tier):
     rp.obligation("oracle: %d payload x position x layout cells x 4 thresholds (presence, exact filtering, counts, helpers, tree unchanged, long-lived scanner)" % len(seen_cells),
                   not [1 for c, li, d, r, f in failures if json.dumps({"kind": "context", "analysis": "scan", "position": position_class(c["position"]), "failure": f.split(":")[0]}, sort_keys=True) not in known])
 
+    # ---- statements that carry a query although they are not queries themselves (outside the reference grammar of the
+    #      model; oracle only): the payload statement as the body of CREATE [MATERIALIZED] VIEW / CREATE TABLE AS must be
+    #      reported exactly as when it stands alone ("equally wherever it occurs ... in any nested statement")
+    wrap_src = [(c, d) for (c, li), d, r in zip(meta, inputs[:n_payload], res[:n_payload])
+                if li == 0 and r["accepted"] and c["stmt"][0] in ("select", "setop") and not check_result(r, tuple(c["expected"]))]
+    rng.shuffle(wrap_src)
+    wrap_src = wrap_src[:150 if quick else 1500]
+    WRAPS = ["CREATE VIEW zv AS %s", "CREATE MATERIALIZED VIEW zmv AS %s", "CREATE TABLE zt AS %s", "CREATE OR REPLACE VIEW zv AS %s"]
+    winputs, wmeta = [], []
+    for c, d in wrap_src:
+        for w in WRAPS:
+            winputs.append({"sql": w % d["sql"], "payload": d["payload"], "id": len(winputs)}); wmeta.append((c, d, w))
+    wres = run_harness(winputs, rp, "wrapped") if winputs else []
+    wbad, waccepted = [], 0
+    for (c, d, w), wi, r in zip(wmeta, winputs, wres or []):
+        if not r["accepted"]:
+            continue
+        waccepted += 1
+        fl = [f for f in check_result(r, tuple(c["expected"])) if f.startswith("missing")]
+        if fl:
+            wbad.append((c, wi, r, fl[0], w))
+    rp.cov["wrapped_statements"] = {"run": len(winputs), "accepted": waccepted}
+    rp.obligation("oracle: %d payload queries reported equally as the body of CREATE VIEW / MATERIALIZED VIEW / TABLE AS" % waccepted, not wbad)
+    seen_w = set()
+    for c, wi, r, f, w in wbad:
+        if w in seen_w:
+            continue
+        seen_w.add(w)
+        rp.violation({"kind": "oracle", "property": "C16", "input": {"sql": wi["sql"], "payload": wi["payload"]}, "failure": f, "wrapper": w % "<query>",
+                      "payload": c["payload"], "position": c["position"], "expected": c["expected"], "findings_low": r["runs"][0]["f"] if r.get("runs") else None,
+                      "explanation": "the payload is reported when the query stands alone but not when the same query is the body of this statement"},
+                     "oracle_wrapped_%d" % len(rp.violations))
+
     # ---- ScanSQL: documented text patterns in layout variants (not modelled; oracle only) ----
     sql_bad = []
     texts = run_sql_only(rp)
